@@ -990,7 +990,9 @@ def run(ctx):
     ctx.rule = ("seeded random datasets over the property's quantifier (names over [A-Za-z0-9_-]; strings over printable "
                 "ASCII without double quote and backslash incl. the edge strings; ints of up to 6 digits; floats incl. "
                 "integral, tiny, huge, NaN, +-inf; homogeneous lists; dicts to depth 3; Base, Grid, Structure (nested to "
-                "depth 3), Sequence; NC_GLOBAL/DODS_EXTRA) served through BaseHandler and opened with open_url, plus "
+                "depth 3), Sequence; Grids with maps in any stored order, non-dimension maps, no maps, repeated/anonymous "
+                "dimension names; zero extents; variables named like an enclosing container, the dataset or a grammar "
+                "word; NC_GLOBAL/DODS_EXTRA) served through BaseHandler and opened with open_url, plus "
                 "separate streams with lists shorter than 2, with attributes named like a child / the dataset, foreign "
                 "flat and nested DAS texts (Python printer), foreign-layout texts printed by the Lean specification printer "
                 "(das-fprint), and malformed texts; a case is non-trivial when the dataset carries at least "
